@@ -1,8 +1,9 @@
-(* C02 — Causal message ordering between models.  Partial: the per-step FIFO
-   facts below are proved for all inputs; the trace-level happens-before
-   theorem of the design is NOT mechanised (see MANIFEST level note). *)
+(* C02 — Causal message ordering between models: per-step FIFO facts, the
+   mailbox trace theorem and 'processing order = enqueue order' for any
+   execution (the happens-before relation itself is not a Coq definition:
+   see MANIFEST level note). *)
 Require Import NX.Base.Prelude NX.Base.ListX NX.Model.PQ NX.Model.Sim.
-Require Import NX.Proofs.SimBasic NX.Proofs.SimSched NX.Proofs.NetProofs NX.Proofs.NetTrace.
+Require Import NX.Proofs.SimBasic NX.Proofs.SimSched NX.Proofs.NetProofs NX.Proofs.NetTrace NX.Proofs.NetCausal.
 
 (* In every step of every schedule, every mailbox either stays as it is, loses
    its HEAD (its owner starts that message) or gains ONE message at its TAIL:
@@ -49,6 +50,27 @@ Theorem c02_mailbox_trace :
     nth_error (boxes s') m = Some (skipn (deqs b s ls m) (q ++ enqs b s ls m)).
 Proof. exact mailbox_trace. Qed.
 Print Assumptions c02_mailbox_trace.
+
+(* Processing order = enqueue order, for ANY execution: the messages a model has started
+   processing, in the order it started them, are the first deqs messages of (its initial mailbox
+   content followed by everything enqueued into it, in enqueue order).  So if M1 is enqueued into
+   B's mailbox before M3 - which is what "the sending of M1 happens before the sending of M3" means
+   here: a send completes by its enqueue (c02_program_order), and a chain of sends and deliveries
+   only goes forward along the execution - then B processes M1 before M3, whatever the schedule,
+   the mailbox capacities and the suspensions of senders on full mailboxes. *)
+Theorem c02_processed_prefix_of_enqueued :
+  forall b ls s s' m q,
+    net_exec b s ls = Some s' -> nth_error (boxes s) m = Some q ->
+    procs b s ls m = firstn (deqs b s ls m) (q ++ enqs b s ls m).
+Proof. exact procs_prefix. Qed.
+Print Assumptions c02_processed_prefix_of_enqueued.
+
+Theorem c02_processed_in_enqueue_order :
+  forall b ls s s' m q k g,
+    net_exec b s ls = Some s' -> nth_error (boxes s) m = Some q ->
+    nth_error (procs b s ls m) k = Some g -> nth_error (q ++ enqs b s ls m) k = Some g.
+Proof. exact processed_in_enqueue_order. Qed.
+Print Assumptions c02_processed_in_enqueue_order.
 
 (* a run of the executor under any choice sequence is such an execution, ending
    in a state where no step is enabled *)
